@@ -158,7 +158,7 @@ fn one_attack(
     }
 }
 
-pub fn run_extra(entry: &Entry, inputs: &[Vec<V>], mbl: u8, thorough: bool, seed: u64, rep: &mut Report) -> ExtraStats {
+pub fn run_extra(entry: &Entry, inputs: &[Vec<V>], mbl: u8, thorough: bool, seed: u64, narrow: &ArsBudget, rep: &mut Report) -> ExtraStats {
     let mut st = ExtraStats::default();
     let rel = OpRel(entry.clone());
     let k = match catch_any(|| MidnightCircuit::new(&rel, Value::unknown(), Value::unknown(), Some(mbl)).min_k()) {
@@ -166,7 +166,7 @@ pub fn run_extra(entry: &Entry, inputs: &[Vec<V>], mbl: u8, thorough: bool, seed
         Err(_) => return st, // reported by the driver
     };
     let mut rng = rng_for(seed, &format!("extra-{}", entry.kind.label()));
-    let narrow = if thorough { ArsBudget::thorough() } else { ArsBudget::quick() };
+    let narrow = narrow.clone();
     let wide = ArsBudget {
         restarts: 14,
         nodes_per_restart: if thorough { 6000 } else { 2500 },
